@@ -669,7 +669,9 @@ class RunLength2dArray(IndexableMixin, np.lib.mixins.NDArrayOperatorsMixin):
         else:
             values = self._values.ravel()
         assert len(values) == len(positions), (values, positions)
-        if np.issubdtype(values.dtype, np.integer):
+        if values.dtype == bool:
+            values = values.astype(int)
+        elif np.issubdtype(values.dtype, np.integer):
             if np.issubdtype(values.dtype, np.signedinteger):
                 values = values.astype(int)
             else:
